@@ -12,6 +12,8 @@ use std::fmt::Write;
 const XS: [u64; 6] = [0, 1, 2, 1 << 63, u64::MAX - 1, u64::MAX];
 
 pub struct C07 {
+    /// the bar is a member of a MultiProgress (and MultiProgress::remove is in the alphabet)
+    pub multi: bool,
     pub len0: Option<u64>,
     pub xs: Vec<u64>,
 }
@@ -25,6 +27,9 @@ impl Hist for C07 {
             v.extend([BOp::Inc(x), BOp::Dec(x), BOp::SetPos(x), BOp::SetLen(x), BOp::IncLen(x), BOp::DecLen(x), BOp::UpdatePos(x), BOp::UpdateLen(x)]);
         }
         v.extend([BOp::UnsetLen, BOp::Reset, BOp::Finish, BOp::Abandon, BOp::FinishClear, BOp::Tick, BOp::FinishUsingStyle, BOp::FinishMsg("f"), BOp::AbandonMsg("a"), BOp::WrapIter3]);
+        if self.multi {
+            v.push(BOp::MpRemove);
+        }
         v
     }
 
@@ -32,12 +37,21 @@ impl Hist for C07 {
         clock::reset();
         let catcher = LineCatcher::new(40);
         let style = ProgressStyle::with_template("{f}|{percent}|{pos}|{len}").unwrap().with_key("f", |s: &ProgressState, w: &mut dyn Write| write!(w, "{:?}", s.fraction()).unwrap());
-        let pb = bar_on(&catcher, self.len0, style);
+        let mp = self.multi.then(|| indicatif::MultiProgress::with_draw_target(indicatif::ProgressDrawTarget::term_like(Box::new(catcher.clone()))));
+        let pb = match mp.as_ref() {
+            Some(m) => m.add(indicatif::ProgressBar::with_draw_target(self.len0, indicatif::ProgressDrawTarget::hidden()).with_style(style)),
+            None => bar_on(&catcher, self.len0, style),
+        };
         let mut rf = RefState::new(self.len0, Fin::AndClear, 0);
         let shown: Vec<String> = hist.iter().map(|o| format!("{:?}", o)).collect();
-        let cfg = format!("initial length {:?}", self.len0);
+        let cfg = format!("initial length {:?}{}", self.len0, if self.multi { ", member of a MultiProgress" } else { "" });
         for (i, op) in hist.iter().enumerate() {
             clock::advance_ms(7);
+            if *op == BOp::MpRemove {
+                if let Some(m) = mp.as_ref() {
+                    m.remove(&pb);
+                }
+            }
             if let Err(p) = catch(|| apply(&pb, op)) {
                 let _ = catch(move || drop(pb));
                 return Verdict::Bad(Violation { class: format!("panic: {}", panic_class(&p)), config: cfg, history: shown[..=i].to_vec(), detail: p });
@@ -62,7 +76,8 @@ impl Hist for C07 {
         if g.finished != want.finished {
             return bad("finished: is_finished() differs", format!("got {} expected {}", g.finished, want.finished));
         }
-        if !(rf.finished && rf.hidden_done) {
+        // (a bar removed from its MultiProgress paints nothing: bookkeeping only)
+        if !(rf.finished && rf.hidden_done) && !hist.contains(&BOp::MpRemove) {
             let line = lines.first().cloned().unwrap_or_default();
             let parts: Vec<&str> = line.split('|').collect();
             if parts.len() != 4 {
@@ -96,8 +111,8 @@ impl Hist for C07 {
 
 fn configs(tier: Tier) -> Vec<(C07, usize)> {
     match tier {
-        Tier::Quick => vec![(C07 { len0: Some(5), xs: XS.to_vec() }, 3), (C07 { len0: Some(5), xs: vec![1, u64::MAX] }, 4), (C07 { len0: None, xs: vec![1, u64::MAX] }, 3), (C07 { len0: Some(u64::MAX), xs: vec![0, 1 << 63, u64::MAX] }, 3)],
-        Tier::Thorough => vec![(C07 { len0: Some(5), xs: XS.to_vec() }, 4), (C07 { len0: None, xs: XS.to_vec() }, 3), (C07 { len0: Some(u64::MAX), xs: vec![1, 1 << 63, u64::MAX] }, 5)],
+        Tier::Quick => vec![(C07 { multi: true, len0: Some(5), xs: vec![1, u64::MAX] }, 3), (C07 { multi: false, len0: Some(5), xs: XS.to_vec() }, 3), (C07 { multi: false, len0: Some(5), xs: vec![1, u64::MAX] }, 4), (C07 { multi: false, len0: None, xs: vec![1, u64::MAX] }, 3), (C07 { multi: false, len0: Some(u64::MAX), xs: vec![0, 1 << 63, u64::MAX] }, 3)],
+        Tier::Thorough => vec![(C07 { multi: true, len0: Some(5), xs: vec![1, 2, u64::MAX] }, 4), (C07 { multi: true, len0: Some(u64::MAX), xs: vec![1] }, 4), (C07 { multi: false, len0: Some(5), xs: XS.to_vec() }, 4), (C07 { multi: false, len0: None, xs: XS.to_vec() }, 3), (C07 { multi: false, len0: Some(u64::MAX), xs: vec![1, 1 << 63, u64::MAX] }, 5)],
     }
 }
 
